@@ -9,7 +9,8 @@ real gemseo objects (spec -> code):
 
 * level "approx": FirstOrderFD / CenteredDifferences / ComplexStep .f_gradient(x, step, x_indices), serial,
   and for a subset with the process and the thread back-ends, on a harness function that logs every point
-  it is called at;
+  it is called at; the instances with a design space, default x_indices and a scalar step also through
+  OptimizationProblem(design_space, differentiation_method, differentiation_step) (replay_problem);
 * level "disc" (c16_disc.py): DisciplineJacApprox.compute_approx_jac with input/output subsets and
   x_indices, Discipline.linearize in the three approximation modes, Discipline.check_jacobian(indices=...).
 
@@ -226,6 +227,62 @@ def replay_approx(ck: Check, funs, I, jac, pts, k, par="serial"):
     return quiet
 
 
+MODE = {"fd": "finite_differences", "cd": "centered_differences", "cs": "complex_step"}
+
+
+def replay_problem(ck: Check, funs, I, jac, pts, k):
+    """The same instance through OptimizationProblem(design_space, differentiation_method, differentiation_step):
+    the pre-processed objective's Jacobian is the approximator's, built with the problem's design space
+    (ds "phys": physical inputs; ds "norm": normalised inputs on the unit box, where x_n = x)."""
+    from gemseo.algos.design_space import DesignSpace
+    from gemseo.algos.optimization_problem import OptimizationProblem
+    from gemseo.core.mdo_functions.mdo_function import MDOFunction
+
+    meth, n = I["meth"], funs[I["fid"]]["n"]
+    x = np.array(I["X"], dtype=float) / S
+    h = I["hs"][0] / S
+    lb, ub = list(I["lb"]), list(I["ub"])
+    near = any(ub[c] - I["hs"][0] < I["X"][c] < ub[c] for c in range(n))
+    use_db = k % 2 == 1
+    sig = {"level": "problem", "method": meth, "ds": I["ds"], "subset": "all_default", "step": "scalar",
+           "par": "serial"}
+    case = {"instance": I, "x": x.tolist(), "step": h, "use_database": use_db,
+            "expected_jac_scaled": jac, "scale": S * S}
+    f = PolyFn(funs[I["fid"]])
+    try:
+        ds = DesignSpace()
+        ds.add_variable("x", n, lower_bound=np.array(lb) / S, upper_bound=np.array(ub) / S, value=x)
+        if meth == "cs":
+            ds.to_complex()  # what the optimisation libraries do for complex step
+        problem = OptimizationProblem(ds, differentiation_method=MODE[meth], differentiation_step=h)
+        problem.objective = MDOFunction(f, "f")
+        problem.preprocess_functions(is_function_input_normalized=I["ds"] == "norm", use_database=use_db,
+                                     round_ints=False)
+        g = np.asarray(problem.objective.jac(x))
+    except Exception as ex:  # noqa: BLE001
+        ck.violation("Runs", dict(sig, exception=type(ex).__name__, msg=exc_class(ex)), dict(case, error=repr(ex)))
+        return False
+    logged = set(f.log)
+    over = [p for p in logged if any(p[c][0] > ub[c] / S for c in range(n))]
+    if over:
+        ck.violation("WithinBounds", dict(sig, near_ub=near),
+                     dict(case, beyond_upper_bound=sorted(over), ub=[u / S for u in ub]))
+        return False
+    want_pts = spec_points(pts)
+    if logged != want_pts:
+        ck.violation("EvalPoints", sig, dict(case, impl=sorted(logged), spec=sorted(want_pts)))
+        return False
+    want = np.array(jac, dtype=float).reshape(f.m, n) / (S * S)
+    if g.shape != want.shape:
+        ck.violation("Shape", sig, dict(case, impl_shape=list(g.shape), spec_shape=list(want.shape)))
+        return False
+    if not close(meth, g, want):
+        symptom = "nonfinite" if not np.all(np.isfinite(g)) else "value"
+        ck.violation("Accuracy", dict(sig, symptom=symptom), dict(case, impl=g.tolist(), spec=want.tolist()))
+        return False
+    return True
+
+
 def run(ck: Check):
     import random
 
@@ -285,6 +342,17 @@ def run(ck: Check):
     ck.extra["process_backend_runs"] = runs["procs"]
     ck.extra["thread_backend_runs"] = runs["threads"]
     lap("replay_approx_parallel")
+    # the same instances through an optimisation problem (the place where gemseo hands a design space to
+    # the approximators): default x_indices, scalar step, with a design space
+    prob = [k for k, (I, _, _) in enumerate(cases) if I["dflt"] and I["sk"] == "scalar" and I["ds"] != "none"]
+    cap = 6000 if rich else 1500
+    if len(prob) > cap:
+        prob = sorted(rng.sample(prob, cap))
+    for k in prob:
+        replay_problem(ck, funs, *cases[k], k)
+        ck.traces += 1
+    ck.extra["problem_level_instances"] = len(prob)
+    lap("replay_problem")
     # ---- 3. discipline level
     from . import c16_disc
 
